@@ -165,9 +165,14 @@ pub fn ref_outcome(tree: &RTree, v: Result<RV, RErr>) -> Outcome {
     }
 }
 
-pub fn ref_eval(tree: &RTree, e: &Expr, ns: &[(String, String)], default_ns: Option<&str>) -> Outcome {
-    let env = Env { tree, ns: ns.to_vec(), default_ns: default_ns.map(|s| s.to_string()) };
-    ref_outcome(tree, env.eval(e, xp::Cx { node: 0, pos: 1, size: 1 }))
+pub fn ref_eval(tree: &RTree, e: &Expr, ns: &[(String, String)], default_ns: Option<&str>) -> Outcome { ref_eval_dev(tree, e, ns, default_ns, xp::Dev::default()).0 }
+
+/// reference evaluation under a set of bug-compatible switches; the flag says that the evaluation touched
+/// behaviour of a recorded finding that the reference cannot emulate
+pub fn ref_eval_dev(tree: &RTree, e: &Expr, ns: &[(String, String)], default_ns: Option<&str>, dev: xp::Dev) -> (Outcome, bool) {
+    let env = Env { tree, ns: ns.to_vec(), default_ns: default_ns.map(|s| s.to_string()), dev, tainted: std::cell::Cell::new(false) };
+    let o = ref_outcome(tree, env.eval(e, xp::Cx { node: 0, pos: 1, size: 1 }));
+    (o, env.tainted.get())
 }
 
 fn unesc(s: &str) -> String {
@@ -223,22 +228,47 @@ fn raw_equals_merged(doc: &Doc) -> bool {
     ok(&doc.root)
 }
 
-/// the comparison of one (document, expression) pair. Returns (kind, detail) for a confirmed disagreement,
-/// Err(reason) when the references disagree with each other (inconclusive).
-pub fn judge(case: &XCase, e: &Expr, estr: &str, subj: &Subject) -> Result<Option<(&'static str, String)>, String> {
-    let exp = ref_eval(&case.tree, e, &case.ns, None);
-    let (got, _) = xmlrs_eval(subj, estr, &case.ns, None, STEP_BUDGET);
-    match diff(&exp, &got) {
-        None => Ok(None),
-        Some(kind) => {
-            // O3 must side with O2 (numbers -> strings are decided by O2 alone: libxml2 prints exponents)
-            match lib_eval(&case.text, estr, &case.ns) {
-                Some(l) => { if let Some(k2) = diff(&exp, &l) { let single = matches!((&exp, &l), (Outcome::Str(_), Outcome::Str(_))) && estr.contains("string") || estr.contains("concat"); if !single { return Err(format!("O2 {} vs O3 {} ({})", exp.brief(), l.brief(), k2)); } } }
-                None => return Err("libxml2 unavailable for this case".into()),
-            }
-            Ok(Some((kind, format!("expected {} observed {}", exp.brief(), got.brief()))))
-        }
+pub enum Judgement {
+    Agree,
+    /// explained exactly by the recorded findings in the mask (or, if `excluded`, inside a zone the reference cannot emulate)
+    Deviation { mask: u32, excluded: bool },
+    Violation { kind: &'static str, detail: String },
+    Inconclusive(String),
+}
+
+fn masks_by_popcount() -> Vec<u32> { let mut v: Vec<u32> = (1..(1u32 << xp::Dev::COUNT)).collect(); v.sort_by_key(|m| m.count_ones()); v }
+
+/// The comparison of one (document, expression) pair: xml-rs against O2, recorded deviations, then O3.
+pub fn judge(case: &XCase, e: &Expr, estr: &str, subj: &Subject) -> Judgement { judge_ns(case, e, estr, subj, &case.ns) }
+
+pub fn judge_ns(case: &XCase, e: &Expr, estr: &str, subj: &Subject, ns: &[(String, String)]) -> Judgement {
+    let exp = ref_eval(&case.tree, e, ns, None);
+    let (got, _) = xmlrs_eval(subj, estr, ns, None, STEP_BUDGET);
+    judge_outcomes(case, e, estr, ns, &exp, &got)
+}
+
+pub fn judge_outcomes(case: &XCase, e: &Expr, estr: &str, ns: &[(String, String)], exp: &Outcome, got: &Outcome) -> Judgement {
+    let kind = match diff(exp, got) { None => return Judgement::Agree, Some(k) => k };
+    if kind == "panic" || kind == "steps" { return Judgement::Violation { kind, detail: format!("expected {} observed {}", exp.brief(), got.brief()) }; }
+    // is the disagreement explained exactly by recorded findings?
+    let mut excluded: Option<u32> = None;
+    for m in masks_by_popcount() {
+        let (em, tainted) = ref_eval_dev(&case.tree, e, ns, None, xp::Dev::from_mask(m));
+        if tainted { if excluded.is_none() { excluded = Some(m); } continue; }
+        if diff(&em, got).is_none() { return Judgement::Deviation { mask: m, excluded: false }; }
     }
+    if let Some(m) = excluded { return Judgement::Deviation { mask: m, excluded: true }; }
+    // O3 must side with O2 (number -> string is decided by O2 alone: libxml2 prints exponents)
+    match lib_eval(&case.text, estr, ns) {
+        Some(l) => {
+            if let Some(k2) = diff(exp, &l) {
+                let single = matches!((exp, &l), (Outcome::Str(a), Outcome::Str(b)) if a.contains(|c: char| c.is_ascii_digit()) && b.contains("e+") || b.contains("e-"));
+                if !single { return Judgement::Inconclusive(format!("O2 {} vs O3 {} ({})", exp.brief(), l.brief(), k2)); }
+            }
+        }
+        None => return Judgement::Inconclusive("libxml2 unavailable for this case".into()),
+    }
+    Judgement::Violation { kind, detail: format!("expected {} observed {}", exp.brief(), got.brief()) }
 }
 
 fn features_sig(e: &Expr) -> String { xp::feature_set(e).into_iter().filter(|f| !matches!(f.as_str(), "num" | "lit" | "abs")).collect::<Vec<_>>().join("+") }
@@ -274,22 +304,223 @@ pub fn c05(ctx: &mut Ctx) {
             for (view, subj) in [("merged", Some(&case.subj)), ("raw", raw.as_ref())] {
                 let subj = match subj { Some(s) => s, None => continue };
                 match judge(&case, &e, &estr, subj) {
-                    Ok(None) => { ctx.count(&format!("agree/{}", view)); ctx.nontrivial(&format!("{}|{}", estr, case.text)); }
-                    Ok(Some((kind, detail))) => {
-                        if kind == "panic" || kind == "steps" { ctx.count("totality-failure(see C06)"); continue; }
+                    Judgement::Agree => { ctx.count(&format!("agree/{}", view)); ctx.nontrivial(&format!("{}|{}", estr, case.text)); }
+                    Judgement::Deviation { mask, excluded } => { let sig = format!("C05/deviation/{}{}", xp::Dev::names(mask), if excluded { "/excluded" } else { "" }); ctx.violation(d, &sig, &format!("expr {} :: doc {}", estr, case.text), &[("doc", &case.text), ("expr", &estr)]); }
+                    Judgement::Violation { kind, detail } => {
+                        if kind == "panic" || kind == "steps" { ctx.count("totality-failure(see C06)"); ctx.violation(d, &format!("C05/{}", kind), &format!("{} :: expr {} :: doc {}", detail, estr, case.text), &[("doc", &case.text), ("expr", &estr)]); continue; }
                         // shrink the expression while the same kind of disagreement persists
-                        let small = xp::shrink(&e, &mut |c: &Expr| { let s = xp::render(c, Spelling::abbreviated(), None); matches!(judge(&case, c, &s, subj), Ok(Some((k, _))) if k == kind) });
+                        let small = xp::shrink(&e, &mut |c: &Expr| { let s = xp::render(c, Spelling::abbreviated(), None); matches!(judge(&case, c, &s, subj), Judgement::Violation { kind: k, .. } if k == kind) });
                         let sstr = xp::render(&small, Spelling::abbreviated(), None);
                         ctx.violation(d, &format!("C05/{}/{}", kind, features_sig(&small)), &format!("{} :: expr {} :: shrunk {} :: view {} :: doc {}", detail, estr, sstr, view, case.text), &[("doc", &case.text), ("expr", &estr), ("shrunk", &sstr)]);
                     }
-                    Err(why) => { ctx.inconclusive("oracle_disagreement"); if ctx.notes.len() < 10 { ctx.notes.push(format!("{} :: {} :: {}", why, estr, case.text)); } }
+                    Judgement::Inconclusive(why) => { ctx.inconclusive("oracle_disagreement"); if ctx.notes.len() < 10 { ctx.notes.push(format!("{} :: {} :: {}", why, estr, case.text)); } }
                 }
             }
         }
     }
 }
 
-pub fn c06(_: &mut Ctx) {}
+// ------------------------------------------------------------------------------------------------
+// C06: totality of XPath parsing and evaluation
+
+/// documents that stress sibling navigation and depth, in addition to random ones
+fn c06_special_docs() -> Vec<String> {
+    vec![
+        "<r><?p a?><?p b?><?q c?><a/><?p d?><b/><!--c--><!--d-->t<a/></r>".to_string(),
+        "<?p a?><?p b?><!--c--><r a='1' b='2'><a><a><a><a><a><a>x</a></a></a></a></a></a></r><?z?><!--e-->".to_string(),
+        "<!DOCTYPE r [<!ENTITY e 'v'><!ATTLIST a d CDATA 'dv'>]><r xmlns:p='urn:a'><a/><p:a>&e;<![CDATA[c]]>&#65;</p:a><a d='w'/></r>".to_string(),
+        "<r/>".to_string(),
+    ]
+}
+
+const XP_ALPHABET: &[&str] = &["/", "//", "[", "]", "(", ")", "@", "::", ".", "..", "*", "|", "+", "-", "=", "!=", "<", ">", "<=", ">=", " or ", " and ", " div ", " mod ", ",", "'", "\"", "$", ":", "1", "0.5", "a", "text()", "node()", "child::", "ancestor::", "last()", "position()", " ", "\u{e9}", "1e3", "-", "--", "processing-instruction(", "id(", "$v", "comment()", "namespace::", "self::", "p:", "p:*", "]]", "[1]", "[0]", "9999999999999999999999", "\u{0}"];
+
+fn mutate_expr(s: &str, r: &mut Rng) -> String {
+    let cs: Vec<char> = s.chars().collect();
+    let mut out = String::new();
+    let p = if cs.is_empty() { 0 } else { r.below(cs.len() + 1) };
+    out.extend(cs[..p].iter());
+    match r.below(4) {
+        0 => { out.push_str(r.pick_s(XP_ALPHABET)); out.extend(cs[p..].iter()); }
+        1 => { let q = (p + r.range(1, 4)).min(cs.len()); out.extend(cs[q..].iter()); }
+        2 => { out.push_str(r.pick_s(XP_ALPHABET)); let q = (p + 1).min(cs.len()); out.extend(cs[q..].iter()); }
+        _ => { let q = r.below(cs.len() + 1); let (a, b) = (p.min(q), p.max(q)); out = cs[..a].iter().collect(); out.extend(cs[a..b].iter()); out.extend(cs[a..b].iter()); out.extend(cs[b..].iter()); }
+    }
+    out
+}
+
+const UNSUPPORTED: &[&str] = &["$x", "$p:x", "id('a')", "id(//a)", "//a[id('x')]", "processing-instruction('p')", "//processing-instruction('p')[1]", "r/processing-instruction('q')", "..", "/..", "/../a", "//@*/..", "//@*/../a", "//@*/parent::*", "//namespace::*/..", "//namespace::*/parent::node()", "//@*/following::*", "//@*/preceding-sibling::node()", "//@*/ancestor::*", "//namespace::*/ancestor-or-self::node()", "//text()/..", "//comment()/../..", "substring('abc', 0)", "substring('abc', -1, 3)", "substring('abc', 1 div 0)", "substring('abc', 0 div 0)", "substring('h\u{e9}llo', 2, 2)", "substring('abc', 2, -1 div 0)", "substring('abc', -1 div 0, 1 div 0)", "substring('abc', 1e300)", "round(1 div 0)", "round(0 div 0)", "string-length(//a)", "count(1)", "count('a')", "sum('a')", "sum(1)", "'a' | 'b'", "1 | //a", "(1)[1]", "'a'/b", "1/a", "true()/a", "(//a)[0 div 0]", "//a[1 div 0]", "//a[-1]", "//a[99999999999999999999]", "//a[position() = 1e300]", "concat('a')", "concat()", "nosuchfunction()", "p:f()", "q:a", "q:*", "//q:*", "last(1)", "position(1)", "not()", "not(1,2)", "true(1)", "lang()", "translate('a','b')", "number(1,2)", "boolean()", "string(1,2)", "name(1)", "local-name('a')", "namespace-uri(1)", "/", "/*", "//*", "//node()", "//.", "//..", ".//.", "./.", "@*", "//@*", "self::node()", "parent::node()", "ancestor::node()", "ancestor-or-self::node()", "preceding::node()", "following::node()", "preceding-sibling::node()", "following-sibling::node()", "namespace::node()", "attribute::node()", "//a/following::node()", "//a/preceding::node()", "//processing-instruction()/following-sibling::node()", "//processing-instruction()/preceding-sibling::node()", "//processing-instruction()/following::node()", "//comment()/following-sibling::processing-instruction()", "//text()/following-sibling::node()", "", " ", "(", ")", "[", "]", "//", "/ /", "a/", "a//", "a[", "a[]", "a[1", "()", "(1", "1 +", "+ 1", "1 div", "div", "a | ", "| a", "@", "@@a", "a::b", "child::", "::a", "child::child::a", "a:b:c", ":a", "a:", "'abc", "\"abc", "1.2.3", "1..2", "..1", ". .", ".. ..", "a b", "1 2", "a(", "a()", "text(", "text(1)", "node('a')", "comment('c')", "processing-instruction(1)", "processing-instruction(a)", "-", "--", "- - 1", "-a", "--a", "1 - - 1", "1--1", "a-1", "a -1", "a - 1", "5 mod 2", "5mod2", "5 mod2", "5 div0", "1 or2", "1 and2", "1or 2", "or", "and", "div", "mod", "or or or", "and and and", "div div div", "mod mod mod", "* * *", "//*[* * *]", "1 * *", "* * 1"];
+
+fn step_budget(expr_len: usize, nodes: usize) -> u64 { 2000 * (expr_len as u64 + 16) * (nodes as u64 + 8) }
+
+/// one totality evaluation: returns Some((class, detail)) if the oracle fires
+fn c06_eval(subj: &Subject, nodes: usize, expr: &str, ctx: Option<&mut Ctx>) -> Option<(String, String)> {
+    let budget = step_budget(expr.len(), nodes);
+    let (o, steps) = xmlrs_eval(subj, expr, &[("p".to_string(), "urn:a".to_string())], None, budget);
+    if let Some(c) = ctx {
+        c.steps(steps);
+        let ratio = steps * 1000 / ((expr.len() as u64 + 16) * (nodes as u64 + 8));
+        let e = c.hist.entry("max_millisteps_per_len_x_nodes".into()).or_insert(0); if ratio > *e { *e = ratio; }
+        c.count(match &o { Outcome::Err(_) => "outcome/error", Outcome::Nodes(_) => "outcome/node-set", Outcome::Panic(_) => "outcome/PANIC", Outcome::Steps => "outcome/STEPS", _ => "outcome/scalar" });
+    }
+    match o {
+        Outcome::Panic(p) => Some((format!("panic/{}", p), "panic".into())),
+        Outcome::Steps => Some(("steps".into(), format!("more than {} logical steps for an expression of {} bytes on {} nodes", budget, expr.len(), nodes))),
+        _ => None,
+    }
+}
+
+pub fn xfamily_input(fam: &str, n: usize) -> (String, String) {
+    let rep = |s: &str, n: usize| s.repeat(n);
+    let chain = |d: usize| format!("{}x{}", rep("<a>", d), rep("</a>", d));
+    let wide = |w: usize| format!("<r>{}</r>", rep("<a>1</a>", w));
+    match fam {
+        "parens" => (wide(4), format!("{}1{}", rep("(", n), rep(")", n))),
+        "parens-path" => (wide(4), format!("{}//a{}", rep("(", n), rep(")", n))),
+        "calls" => (wide(4), format!("{}'x'{}", rep("string(", n), rep(")", n))),
+        "not-calls" => (wide(4), format!("{}1{}", rep("not(", n), rep(")", n))),
+        "predicates-nested" => (chain(40), format!("//a{}{}", rep("[a", n), rep("]", n))),
+        "predicates-chain" => (wide(8), format!("//a{}", rep("[1]", n))),
+        "unions" => (wide(8), format!("//a{}", rep("|//a", n))),
+        "path-child" => (chain(40), format!("/a{}", rep("/a", n))),
+        "path-dslash" => (chain(24), format!("//a{}", rep("//a", n))),
+        "path-dslash-star" => (chain(24), format!("//*{}", rep("//*", n))),
+        "path-parent" => (chain(24), format!("//a{}", rep("/..//a", n))),
+        "path-ancestor" => (chain(24), format!("//a{}", rep("/ancestor::a/descendant::a", n))),
+        "path-following" => (wide(24), format!("//a{}", rep("/following::a/preceding::a", n))),
+        "minus" => (wide(2), format!("1{}", rep("-1", n))),
+        "unary-minus" => (wide(2), format!("{}1", rep("-", n))),
+        "plus" => (wide(2), format!("1{}", rep(" + 1", n))),
+        "or-chain" => (wide(2), format!("0{}", rep(" or 0", n))),
+        "eq-chain" => (wide(2), format!("1{}", rep(" = 1", n))),
+        "literal" => (wide(2), format!("'{}'", rep("ab ", n))),
+        "number" => (wide(2), format!("{}.{}", rep("9", n.max(1)), rep("9", n))),
+        "concat-args" => (wide(2), format!("concat('a'{})", rep(",'a'", n.max(1)))),
+        "name-length" => (wide(2), rep("n", n.max(1))),
+        "doc-width" => (wide(n), "count(//a[. = 1]/following-sibling::a[1])".to_string()),
+        "doc-depth" => (chain(n.min(900)), "count(//a/ancestor::a)".to_string()),
+        "doc-pis" => (format!("<r>{}<a/></r>", rep("<?p d?>", n)), "count(//processing-instruction()/following-sibling::node())".to_string()),
+        "open-parens" => (wide(2), rep("(", n)),
+        "open-brackets" => (wide(2), format!("a{}", rep("[a", n))),
+        "slashes" => (wide(2), rep("/", n)),
+        _ => ("<r/>".into(), "1".into()),
+    }
+}
+pub const XFAMILIES: &[&str] = &["parens", "parens-path", "calls", "not-calls", "predicates-nested", "predicates-chain", "unions", "path-child", "path-dslash", "path-dslash-star", "path-parent", "path-ancestor", "path-following", "minus", "unary-minus", "plus", "or-chain", "eq-chain", "literal", "number", "concat-args", "name-length", "doc-width", "doc-depth", "doc-pis", "open-parens", "open-brackets", "slashes"];
+
+fn xfamily_max(fam: &str, thorough: bool) -> usize {
+    match fam {
+        "doc-width" | "doc-pis" => if thorough { 4096 } else { 512 },
+        "doc-depth" => 512,
+        "path-dslash" | "path-dslash-star" | "path-parent" | "path-ancestor" | "path-following" => if thorough { 256 } else { 64 },
+        _ => if thorough { 16384 } else { 2048 },
+    }
+}
+
+fn run_xfamily_child(fam: &str, n: usize) -> Result<Option<(String, String)>, String> {
+    let exe = std::env::current_exe().map_err(|e| e.to_string())?;
+    let out = std::process::Command::new("timeout").arg("--signal=KILL").arg("120").arg(exe).arg("C06").arg("--family").arg(format!("{}:{}", fam, n)).output().map_err(|e| e.to_string())?;
+    let so = String::from_utf8_lossy(&out.stdout).to_string();
+    use std::os::unix::process::ExitStatusExt;
+    if let Some(sig) = out.status.signal() { if sig == 9 { return Err("timeout".into()); } return Ok(Some((format!("abort/{}", fam), format!("child killed by signal {} at n={}", sig, n)))); }
+    match out.status.code() {
+        Some(0) => { for l in so.lines() { if let Some(rest) = l.strip_prefix("FAMILY-FAIL\t") { let mut p = rest.splitn(2, '\t'); let class = p.next().unwrap_or("").to_string(); return Ok(Some((class, format!("n={} {}", n, p.next().unwrap_or(""))))); } } Ok(None) }
+        Some(137) => Err("timeout".into()),
+        c => Ok(Some((format!("abort/{}", fam), format!("child exit status {:?} at n={} stderr {}", c, n, crate::util::truncate(&String::from_utf8_lossy(&out.stderr), 200))))),
+    }
+}
+
+fn count_dom_nodes(s: &Subject) -> usize { s.idmap.len() }
+
+pub fn c06(ctx: &mut Ctx) {
+    if let Some(f) = ctx.family.clone() {
+        let mut p = f.splitn(2, ':'); let fam = p.next().unwrap().to_string(); let n: usize = p.next().unwrap_or("1").parse().unwrap_or(1);
+        let (doc, expr) = xfamily_input(&fam, n);
+        let subj = match subject(&doc, true) { Ok(s) => s, Err(e) => { println!("FAMILY-FAIL\tharness/{}\tdocument not usable: {}", fam, e); return; } };
+        match c06_eval(&subj, count_dom_nodes(&subj), &expr, None) {
+            None => println!("FAMILY-OK steps={} len={}", xml_nom::verif::read(), expr.len()),
+            Some((class, detail)) => { let class = if class == "steps" { format!("steps/{}", fam) } else { class }; println!("FAMILY-FAIL\t{}\t{}", class, detail.replace('\n', " ")) }
+        }
+        return;
+    }
+    let ndocs: u64 = if ctx.thorough { 20_000 } else { 800 };
+    let per_doc = if ctx.thorough { 80 } else { 60 };
+    let specials = c06_special_docs();
+    for d in 0..ndocs {
+        if !ctx.mine(d) { continue; }
+        let mut r = ctx.rng(d);
+        ctx.begin(d, "");
+        let (text, gen): (String, XGen) = if (d as usize) < specials.len() * 16 && d % 16 == 0 {
+            let t = specials[(d / 16) as usize % specials.len()].clone();
+            let mut g = XGen::for_doc(&Doc { decl: None, pre: vec![], doctype: None, mid: vec![], root: model::Elem { local: "r".into(), ..Default::default() }, post: vec![] });
+            g.names = vec!["r".into(), "a".into(), "b".into()]; g.prefixes = vec!["p".into()]; g.pi_targets = vec!["p".into(), "q".into()]; g.allow_pi_literal = true;
+            (t, g)
+        } else {
+            let mut cfg = xdoc_cfg(); cfg.attlist_effective = r.chance(1, 4);
+            let doc = { let mut g = Gen::new(&mut r, cfg); g.doc() };
+            let t = model::render(&doc, &mut r, Style { minimal: false });
+            let mut g = XGen::for_doc(&doc); g.allow_pi_literal = true; g.prefixes.push("p".into());
+            (t, g)
+        };
+        let merged = r.chance(3, 4);
+        let subj = match subject(&text, merged) { Ok(s) => s, Err(e) => { ctx.inconclusive(&format!("document_not_usable:{}", crate::util::truncate(&e, 40))); continue; } };
+        let nodes = count_dom_nodes(&subj);
+        for k in 0..per_doc {
+            let e = gen.top(&mut r);
+            let base = xp::render(&e, Spelling { abbrev: r.chance(1, 2), spaces: r.chance(1, 4), full_parens: false, redundant: r.chance(1, 4), outer_ws: r.chance(1, 8) }, Some(&mut r));
+            let (kind, estr) = match k % 6 {
+                0 | 1 => ("valid", base),
+                2 => ("mutant", mutate_expr(&base, &mut r)),
+                3 => ("mutant2", { let m = mutate_expr(&base, &mut r); mutate_expr(&m, &mut r) }),
+                4 => ("unsupported", { let u = r.pick_s(UNSUPPORTED).to_string(); match r.below(4) { 0 => u, 1 => format!("{}[{}]", base, u), 2 => format!("count({})", u), _ => format!("{} | {}", u, base) } }),
+                _ => ("garbage", { let n = r.range(0, 12); let mut s = String::new(); for _ in 0..n { s.push_str(r.pick_s(XP_ALPHABET)); } s }),
+            };
+            ctx.evaluations += 1;
+            ctx.count(&format!("kind/{}", kind));
+            ctx.nontrivial(&format!("{}|{}", estr, text));
+            if d % 53 == 0 && k == 2 { ctx.sample(&format!("[{}] {}  ON  {}", kind, estr, crate::util::truncate(&text, 200))); }
+            if let Some((class, detail)) = c06_eval(&subj, nodes, &estr, Some(ctx)) {
+                // reduce a panicking expression to a short witness: try the listed unsupported constructs alone
+                ctx.violation(d, &format!("C06/{}", class), &format!("{} :: expr {} :: doc {}", detail, estr, text), &[("doc", &text), ("expr", &estr)]);
+            }
+        }
+    }
+    // every listed construct on every special document (exhaustive over this finite table)
+    for (si, sdoc) in specials.iter().enumerate() {
+        let idx = 5_000_000 + si as u64;
+        if !ctx.mine(idx) { continue; }
+        ctx.begin(idx, "table");
+        for merged in [true, false] {
+            let subj = match subject(sdoc, merged) { Ok(s) => s, Err(_) => continue };
+            let nodes = count_dom_nodes(&subj);
+            for u in UNSUPPORTED {
+                ctx.evaluations += 1; ctx.count("kind/table"); ctx.nontrivial(&format!("{}|{}|{}", u, sdoc, merged));
+                if let Some((class, detail)) = c06_eval(&subj, nodes, u, Some(ctx)) { ctx.violation(idx, &format!("C06/{}", class), &format!("{} :: expr {} :: doc {}", detail, u, sdoc), &[("doc", sdoc), ("expr", u)]); }
+            }
+        }
+    }
+    // size families, each member in its own process
+    for (fi, fam) in XFAMILIES.iter().enumerate() {
+        let idx = 10_000_000 + fi as u64;
+        if !ctx.mine(idx) { continue; }
+        ctx.begin(idx, &format!("family {}", fam));
+        let max = xfamily_max(fam, ctx.thorough);
+        let mut n = 1usize; let mut last_ok = 0usize;
+        loop {
+            match run_xfamily_child(fam, n) {
+                Ok(None) => { last_ok = n; ctx.count(&format!("family/{}/ok", fam)); }
+                Ok(Some((class, detail))) => { ctx.violation(idx, &format!("C06/{}", class), &format!("{} (largest n that passed: {})", detail, last_ok), &[("family", fam), ("n", &n.to_string())]); break; }
+                Err(why) => { ctx.inconclusive(&format!("family_{}_{}", fam, why)); break; }
+            }
+            if n >= max { break; }
+            n = (n * 2).min(max);
+        }
+        ctx.evaluations += 1;
+        ctx.nontrivial(&format!("family {} up to {}", fam, last_ok));
+        ctx.count_n(&format!("family/{}/largest_ok", fam), last_ok as u64);
+    }
+}
+
 pub fn c07(_: &mut Ctx) {}
 pub fn c08(_: &mut Ctx) {}
 pub fn c09(_: &mut Ctx) {}
@@ -307,6 +538,13 @@ pub fn witness(prop: &str, f: &[String], _ctx: &mut Ctx) -> Option<String> {
             let l = lib_eval(text, expr, &[])?;
             diff(&l, &got).map(|k| format!("{}/{}", prop, k))
         }
+        (_, "family") => {
+            // a size-family member; a crash of this process is observed by the supervisor
+            let (fam, n) = (f.get(1)?, f.get(2)?.parse::<usize>().ok()?);
+            let (doc, expr) = xfamily_input(fam, n);
+            let subj = subject(&doc, true).ok()?;
+            c06_eval(&subj, count_dom_nodes(&subj), &expr, None).map(|(c, _)| format!("{}/{}", prop, c))
+        }
         (_, "fails") => {
             let (text, expr) = (f.get(1)?, f.get(2)?);
             let subj = subject(text, true).ok()?;
@@ -319,3 +557,17 @@ pub fn witness(prop: &str, f: &[String], _ctx: &mut Ctx) -> Option<String> {
 
 #[allow(dead_code)]
 fn _unused(_: &Step, _: &Start, _: &Test, _: Op, _: RKind) {}
+
+/// diagnostic aid: `xv probe <doc> <expr> [p=uri ...]`
+pub fn probe(text: &str, expr: &str, nsargs: &[String]) {
+    let ns: Vec<(String, String)> = nsargs.iter().filter_map(|a| a.split_once('=').map(|(p, u)| (p.to_string(), u.to_string()))).collect();
+    match subject(text, true) {
+        Ok(s) => { let (o, steps) = xmlrs_eval(&s, expr, &ns, None, STEP_BUDGET); println!("xml-rs merged: {}  [{} steps]", o.brief(), steps); }
+        Err(e) => println!("xml-rs merged: document not usable: {}", e),
+    }
+    match subject(text, false) {
+        Ok(s) => { let (o, steps) = xmlrs_eval(&s, expr, &ns, None, STEP_BUDGET); println!("xml-rs raw   : {}  [{} steps]", o.brief(), steps); }
+        Err(e) => println!("xml-rs raw   : document not usable: {}", e),
+    }
+    match lib_eval(text, expr, &ns) { Some(o) => println!("libxml2      : {}", o.brief()), None => println!("libxml2      : n/a") }
+}
